@@ -52,6 +52,16 @@ def machine : Machine Unit Unit where
       | some f => ((), showRec (decideRec f))
       | none => ((), "bad-op")
     | "mutate" :: _ => ((), "-")
+    | ["sigpayload", d, t, p] =>
+      match unhex d, unhex t, unhex p with
+      | some d, some t, some p => ((), hex (signaturePayload d t p))
+      | _, _, _ => ((), "bad-op")
+    | ["resplit", _kty, d, t, p, d', t', p', _enc] =>
+      match unhex d, unhex t, unhex p, unhex d', unhex t', unhex p' with
+      | some d, some t, some p, some d', some t', some p' =>
+        let (v, r) := resplitModel d t p d' t' p'
+        ((), unwords ["verify=" ++ b2s v, showVerdict r])
+      | _, _, _, _, _, _ => ((), "bad-op")
     | _ => ((), "bad-op")
   spec _ args outs :=
     match args, outs with
@@ -72,6 +82,19 @@ def machine : Machine Unit Unit where
       match recFacts fl, parseRec r with
       | some f, some r => ((), if specRecord f r then "ok" else "FAIL:record_accept_iff")
       | _, _ => ((), "FAIL:unparsable")
+    | ["sigpayload", d, t, p], [bs] =>
+      match unhex d, unhex t, unhex p, unhex bs with
+      | some d, some t, some p, some bs =>
+        ((), if specPayloadBytes d t p bs then "ok" else "FAIL:signed_bytes_do_not_delimit_fields")
+      | _, _, _, _ => ((), "FAIL:unparsable")
+    | ["resplit", _kty, d, t, p, d', t', p', _enc], [v, r] =>
+      match unhex d, unhex t, unhex p, unhex d', unhex t', unhex p', parseVerdict r with
+      | some d, some t, some p, some d', some t', some p', some r =>
+        ((), if v ≠ "verify=1" ∧ v ≠ "verify=0" then "FAIL:unparsable"
+             else if specResplit d t p d' t' p' (v = "verify=1") r then "ok"
+             else if v = "verify=1" ∨ r = .ok then "FAIL:resplit_fields_accepted"
+             else "FAIL:signed_triple_rejected")
+      | _, _, _, _, _, _, _ => ((), "FAIL:unparsable")
     | "mutate" :: _, [r] =>
       ((), if r.startsWith "rejected:" || r = "accepted:same" then "ok"
            else if r.startsWith "accepted:" then "FAIL:mutated_envelope_accepted_with_different_record"
